@@ -130,7 +130,7 @@ def run(prog: Program, res: Result, tier: str) -> None:
                                  "ChannelStats.__add__ no longer merges (self, other) into a fresh accumulator with the summed sample count",
                                  construct="__add__", key="__add__")
     init = cs.methods["__init__"]
-    oki = "self._moments = np.zeros(nchans, dtype=kernels.moments_dtype)" in norm(init.node)
+    oki = [e.text() for e in normal_form(init).sets("self._moments")] == [canon("np.zeros(nchans, dtype=kernels.moments_dtype)")]
     (res.ok if oki else res.bad)("R3", init, init.node, "a new accumulator is the all-zero (empty) element" if oki else
                                  "a new ChannelStats does not start from the all-zero accumulator", construct="__init__", key="__init__")
 
